@@ -310,7 +310,7 @@ def run(chk: core.Check):
                         "log is evaluated in double precision by the oracle",
                         "multivariate Gaussian cost: numeric comparison with the definition only; nearly singular slices (|log det| > 25) judged on the error contract only"]
     rng = core.rng_for(chk.seed, "C01/direct")
-    chk.run_stream("direct", [gen_case(rng, nmax) for _ in range(N)], impl, oracle=oracle, site="Cost.evaluate",
+    chk.run_stream("direct", core.Gen(gen_case, rng, nmax, N), impl, oracle=oracle, site="Cost.evaluate",
                    nontrivial=lambda c, r: r.get("outcome") == "ok" and len(r["vals"]) >= 3,
                    describe=lambda c: {k: v for k, v in c.items() if k != "X"} | {"X[:3]": c["X"][:3]})
     # translator validation
